@@ -323,7 +323,7 @@ impl Scenario for C18 {
                         let expected = vec![
                             EvPat { contract: iw.sc(&iw.its), name: "token_deployment_started", must: vec![sbytes(&id), w.sc_addr_val(&ta), sstr(CHAINS[dest]), sstr_bytes(&n), sstr_bytes(&s), su32(d)] },
                             EvPat { contract: iw.sc(&iw.gas), name: "gas_paid", must: vec![w.sc_addr_val(&iw.its), sstr(HUB_CHAIN), sstr(HUB_ADDRESS), sbytes(&ph), w.sc_addr_val(&iw.users[payer]), token_scval(&iw.sc(&iw.gas_token), g)] },
-                            EvPat { contract: iw.sc(&iw.gw), name: "contract_called", must: vec![w.sc_addr_val(&iw.its), sstr(HUB_CHAIN), sstr(HUB_ADDRESS), sbytes(&payload), sbytes(&ph)] },
+                            EvPat { contract: iw.sc(&iw.gw), name: "contract_called", must: vec![w.sc_addr_val(&iw.its), sstr(HUB_CHAIN), sstr(HUB_ADDRESS), sbytes(&ph), sbytes(&payload)] },
                         ];
                         let r = match_events(&call.events, &expected, &["token_deployment_started", "gas_paid", "contract_called", "interchain_transfer_sent"]);
                         out.expect(r.is_ok(), "announcement", || truncate(&r.unwrap_err(), 900));
